@@ -421,3 +421,34 @@ Example key_example :
   forallb (fun k => (k =? 0) || key_lt key_matrix_kk (ky_hist [(60, 4); (64, 2); (67, 2); (72, 4)]) k 0)
           (zrange 0 24) = true.
 Proof. vm_compute. repeat split; reflexivity. Qed.
+
+(* unique_max is satisfiable: for the C major triad above key 0 (C major) beats the 23 others strictly *)
+Lemma unique_max_forallb : forall lt i, 0 <= i < 24 ->
+  forallb (fun k => (k =? i) || lt k i) (zrange 0 24) = true -> unique_max lt i.
+Proof.
+  intros lt i Hi F. split; [exact Hi|]. intros k Hk Ne.
+  pose proof (forallb_In _ _ F k (zrange_In 0 24 k ltac:(lia))) as H. cbv beta in H.
+  apply orb_true_iff in H. destruct H as [H|H]; [zb; congruence | exact H].
+Qed.
+
+Lemma key_unique_max_example :
+  unique_max (key_lt (profile_set 0) (ky_hist [(60, 4); (64, 2); (67, 2); (72, 4)])) 0.
+Proof. apply unique_max_forallb; [lia|]. vm_compute. reflexivity. Qed.
+
+(* the evaluator used by the correspondence (histogram tabulated once) is the model function *)
+Lemma ky_hist_tab_eq : forall ns pc, 0 <= pc < 12 -> ky_hist_tab ns pc = ky_hist ns pc.
+Proof.
+  intros ns pc H. unfold ky_hist_tab.
+  assert (C : pc = 0 \/ pc = 1 \/ pc = 2 \/ pc = 3 \/ pc = 4 \/ pc = 5 \/ pc = 6 \/ pc = 7 \/
+              pc = 8 \/ pc = 9 \/ pc = 10 \/ pc = 11) by lia.
+  destruct C as [E|[E|[E|[E|[E|[E|[E|[E|[E|[E|[E|E]]]]]]]]]]]; subst pc; reflexivity.
+Qed.
+
+Lemma estimate_key_fast_eq_lemma : forall M ns, estimate_key_fast M ns = estimate_key M ns.
+Proof.
+  intros M ns. unfold estimate_key_fast, estimate_key, estimate_key_idx. f_equal. f_equal.
+  apply argmax_by_ext. intros a b. unfold key_lt.
+  rewrite (ky_cov_ext (ky_hist_tab ns) (ky_hist ns) (row_fn M a) (row_fn M a) (ky_hist_tab_eq ns) (fun _ _ => eq_refl)).
+  rewrite (ky_cov_ext (ky_hist_tab ns) (ky_hist ns) (row_fn M b) (row_fn M b) (ky_hist_tab_eq ns) (fun _ _ => eq_refl)).
+  reflexivity.
+Qed.
